@@ -31,7 +31,18 @@ fn write_if_changed(path: &Path, content: &str) {
 pub fn select(profile: &str, seed: u64, count: usize, max_states: usize) -> (Vec<CorpusDef>, usize) {
     let mut out: Vec<CorpusDef> = vec![];
     let mut tried = 0usize;
-    let curated = if profile == "mixed" { gen::f7_curated() } else { vec![] };
+    // callbacks profile: the curated definitions (one per code-generation feature, incl. the look-around
+    // shapes) decorated with callbacks come first, random ones follow
+    let curated = match profile {
+        "mixed" => gen::f7_curated(),
+        "callbacks" => gen::f7_curated()
+            .into_iter()
+            .enumerate()
+            .filter(|(_, d)| !d.pats.is_empty() && d.pats.len() <= 8 && d.variants.iter().all(|v| *v == vmon::spec::VarKind::Unit))
+            .map(|(k, d)| gen::f9_decorate(&mut Rng::derive(seed ^ 0xF9, k as u64), d))
+            .collect(),
+        _ => vec![],
+    };
     let mut i = 0usize;
     while out.len() < count && tried < count * 20 + 100 {
         let name = format!("D{}", out.len());
